@@ -1964,7 +1964,7 @@ fn main() {
     let strat = case_strategy(dmin, dmax);
     let mut runner = vcore::gen::runner(args.subseed(3));
     let trees = vcore::gen::batch(&strat, &mut runner, n_random);
-    let raws: Vec<(u16, u8, Vec<u8>, u8, [u8; 4])> = trees.iter().map(|t| t.current()).collect();
+    let raws: Vec<RawCase> = trees.iter().map(|t| t.current()).collect();
     let sw = Switches { avoid_elif, same_scope_assign: run.open(KEY_OUTER_ASSIGN) };
     let cases: Vec<Case> = raws.iter().map(|r| build_case(r, sw)).collect();
     // count what the switches changed (the substituted case is still evaluated)
